@@ -659,6 +659,9 @@ def rule_infer_mark(db: ProgramDB) -> List[Instance]:
         "a constructor term (no domain, no explicit conclusion)": (dict(ISVAR=True, MARKED=False, SOURCE=False, REGISTRY=False, TARGET=False), True),
         "a variable with a supplied domain selected next to the inferred one": (dict(ISVAR=True, MARKED=False, SOURCE=True, REGISTRY=False, TARGET=False), False),
         "a flattened expression selected next to the inferred one": (dict(ISVAR=False, MARKED=False, SOURCE=False, REGISTRY=False, TARGET=False), False),
+        # marked = recorded for un-marking at the next reset: a variable that is inferred for good (the term of a conclusion, Add(v, Term(...)),
+        # selected by another rule as well) must not be recorded, or the first reset takes away a mark this evaluation did not give
+        "a variable that is inferred already": (dict(ISVAR=True, MARKED=True, SOURCE=False, REGISTRY=False, TARGET=True), False),
     }
     for label, (env, want) in cases.items():
         try:
@@ -681,14 +684,16 @@ def rule_infer_mark(db: ProgramDB) -> List[Instance]:
         out.append(inst("INFER-MARK", HOLDS if ok else VIOLATION, m, f"{m.short}[{label}]",
                         f"{'marked' if got else 'not marked'} as inferred" if ok else
                         f"{label} is {'marked as inferred (or its mark is read although it has none)' if got else 'not marked as inferred'}: " +
-                        ("a flattened expression has no such mark (AttributeError), and a variable with a domain that is marked stops ranging over its domain, so the "
-                         "rule matches nothing" if got else "its value would be taken from existing instances instead of from the conclusions"), line=mark.lineno))
+                        (("it is recorded as 'inferred for this evaluation' and un-marked by the next reset although this evaluation did not mark it: a conclusion's own "
+                         "term that is also the selected variable of another rule stops being constructed after that rule was abandoned once" if env.get("MARKED") else
+                         "a flattened expression has no such mark (AttributeError), and a variable with a domain that is marked stops ranging over its domain, so the "
+                         "rule matches nothing") if got else "its value would be taken from existing instances instead of from the conclusions"), line=mark.lineno))
     return out
 
 
 # ---------------------------------------------------------------------------------- INFER-MARK (transient)
 INFERRED_AT_CONSTRUCTION_OK = {
-    "Conclusion.__post_init__": "the concluded value (the term written in the conclusion) is marked: it is constructed, never looked up",
+    ("Conclusion.__post_init__", "self.value._is_inferred_"): "the concluded value (the term written in the conclusion) is marked: it is constructed, never looked up",
 }
 
 
@@ -709,7 +714,7 @@ def rule_infer_mark_transient(db: ProgramDB) -> List[Instance]:
                     for t in a.targets:
                         if isinstance(t, ast.Attribute) and t.attr == "_is_inferred_" and not (isinstance(t.value, ast.Name) and t.value.id == "self"):
                             n += 1
-                            why = INFERRED_AT_CONSTRUCTION_OK.get(m.short)
+                            why = INFERRED_AT_CONSTRUCTION_OK.get((m.short, unparse(t)))
                             out.append(inst("INFER-MARK", HOLDS if why else VIOLATION, m, f"{m.short}[{unparse(t)} = True at construction]",
                                             f"confirmed exception: {why}" if why else
                                             f"`{unparse(a)}` marks another node as inferred when this node is BUILT: the mark is never taken back, so after infer(entity(views, …)) "
@@ -907,5 +912,55 @@ def rule_descriptor_siblings(db: ProgramDB) -> List[Instance]:
                             f"(where its conditions start, which node a rule block enters, which variable is inferred)", line=node.lineno))
     if n < 3:
         raise AnalysisError(f"only {n} type tests on descriptor kinds found (5 confirmed by reading)")
+    return out
+
+
+# ---------------------------------------------------------------------------------- EXPR-IDENTITY
+def rule_expr_identity(db: ProgramDB) -> List[Instance]:
+    """`==` on an expression BUILDS a comparison (a truthy object) - that is the language.  Engine code that asks 'is this the node I
+    mean' therefore uses `is`: a test written with `==` / `!=` (or `in` over a list of nodes) is always true for variable-like nodes, so
+    e.g. the re-link of a refinement always takes the left slot and overwrites the base when the refined branch is the right operand.
+    Rule: no Eq / NotEq whose operand is a node-valued attribute (an operand or child slot, the graph parent, the conditions root) or a
+    name bound from one."""
+    out = []
+    se = db.cls("SymbolicExpression")
+    slots: Set[str] = {"_parent_", "_conditions_root_", "_root_", "_eval_parent_"}
+    for c in [se] + se.all_subclasses():
+        for f in c.own_fields:
+            if f.annotation is None:
+                continue
+            u = unparse(f.annotation)
+            if any(w in u for w in ("List", "Dict", "Set", "Iterable", "Tuple")):
+                continue
+            cls_ = db.annotation_classes(c.module, f.annotation)
+            if cls_ and all(k is se or k.is_subclass_of(se) for k in cls_) and f.name in ("left", "right", "_child_", "_var_", "var", "value"):
+                slots.add(f.name)
+    n = 0
+    for fn in sorted(db.all_functions(), key=lambda f: f.qualname):
+        if fn.module not in ("rule", "symbolic", "entity", "predicate", "conclusion", "conclusion_selector"):
+            continue
+        defs = local_defs(fn)
+
+        def node_valued(e) -> bool:
+            if isinstance(e, ast.Attribute) and e.attr in slots and not (isinstance(e.value, ast.Name) and e.value.id in ("operator",)):
+                return True
+            if isinstance(e, ast.Call) and call_attr(e) == "_current_parent_":
+                return True
+            if isinstance(e, ast.Name):
+                return any(isinstance(d, ast.AST) and not isinstance(d, ast.Name) and node_valued(d) for d in defs.get(e.id, []))
+            return False
+        for x in own_nodes(fn.node):
+            if isinstance(x, ast.Compare) and len(x.ops) == 1 and isinstance(x.ops[0], (ast.Eq, ast.NotEq)):
+                l, r = x.left, x.comparators[0]
+                if isinstance(l, ast.Constant) or isinstance(r, ast.Constant):
+                    continue
+                if node_valued(l) or node_valued(r):
+                    n += 1
+                    out.append(inst("EXPR-IDENTITY", VIOLATION, fn, f"{fn.short}[{unparse(x)[:50]}]",
+                                    f"`{unparse(x)}` compares nodes with `{'==' if isinstance(x.ops[0], ast.Eq) else '!='}`: on a variable-like node (a bare attribute, a "
+                                    f"predicate-form variable) that builds a comparison expression, which is truthy, instead of answering whether it is the same node - "
+                                    f"the branch is taken whatever the node is (a refinement under the right operand of an alternative overwrites the left one)", line=x.lineno))
+    if n == 0:
+        out.append(inst("EXPR-IDENTITY", HOLDS, db.fn("rule:refinement"), "engine[nodes are compared by identity]", "no == / != on a node-valued slot"))
     return out
 
